@@ -350,7 +350,7 @@ def run_prop(prop, tier, seed, replay=None):
     else:
         from .common import get_pool
         get_pool(8 if tier == "quick" else 16)   # workers import pandapower while TLC enumerates the model
-        r, states = enumerate_states(prop, seed, *((10, 1) if tier == "quick" else (80, 2)))
+        r, states = enumerate_states(prop, seed, *((8, 1) if tier == "quick" else (80, 2)))
         for name, st, raw in r.violations:
             v.divergence("model-level invariant %s violated" % name, jsonable(st["cfg"]) if isinstance(st, dict) and "cfg" in st else None)
         mstates, mtrans = r.distinct, r.generated
